@@ -106,7 +106,8 @@ int main(void)
 			for (i = 0; i < 8; i++)
 				state[i] = ((uint32_t)sb[4*i] << 24) | ((uint32_t)sb[4*i+1] << 16) | ((uint32_t)sb[4*i+2] << 8) | sb[4*i+3];
 			if (!strcmp(tok[0], "xform-sse2")) {
-				uint32_t * W = malloc(64 * sizeof(uint32_t)); uint32_t * S = malloc(8 * sizeof(uint32_t));
+				/* scratch space handed to the transform: exact-size blocks that start as junk */
+				uint32_t * W = drv_outbuf(64 * sizeof(uint32_t)); uint32_t * S = drv_outbuf(8 * sizeof(uint32_t));
 				if (!have_sse2) { puts("unsupported"); }
 				else SHA256_Transform_sse2(state, blk, W, S);
 				free(W); free(S);
